@@ -54,12 +54,38 @@ func c12Collisions(rng *rand.Rand) (a, b gReq) {
 	}
 }
 
+// c12RewriteHeavy gives most header-less entries of the spec a rewriteTarget (exact, prefix
+// and regexp entries alike), with targets that land inside the request vocabulary of the
+// generator as well as outside of it, so that the rewritten path of one request is a path
+// that other entries of the same server route on their own.
+func c12RewriteHeavy(rng *rand.Rand, s *gSpec) {
+	for ri := range s.Rules {
+		for pi := range s.Rules[ri].Paths {
+			p := &s.Rules[ri].Paths[pi]
+			if p.Path == "" && p.Prefix == "" && p.Regexp == "" {
+				continue // rewriteTarget needs a path condition
+			}
+			if len(p.Headers) > 0 || rng.Intn(3) == 0 {
+				continue
+			}
+			switch {
+			case p.Regexp != "":
+				p.Rewrite = pick(rng, []string{"/r", "/r/$1", "/b/$1", "/$2", "/a/$1", "$0/c", "/a/b", "/ab"})
+			case p.Prefix != "":
+				p.Rewrite = pick(rng, append([]string{"/r", "/r/"}, genPrefixes...))
+			default:
+				p.Rewrite = pick(rng, append([]string{"/r", "/zz"}, genPaths...))
+			}
+		}
+	}
+}
+
 // TestVerif_C12_Twin: two real muxes from the same spec, cacheSize 0 and n, fed the
 // same request sequence; every observable must agree.
 func TestVerif_C12_Twin(t *testing.T) {
 	r := kit.Start(t, "C12")
 	defer r.Finish()
-	r.Rule("seeded HTTPServer specs (header-conditioned entries ahead of unconditional ones, method lists, IP filters at server/rule/path level, shadowing duplicates; one class of virtual-host servers whose rules each carry their own IP filter and produce 200/404/405 per host) x cache sizes {1,2,8,64} x sequences of 40 requests from mixed clients drawn from a pool of 10 (so repeats, warm-ups by other clients/headers and evictions occur) plus crafted (host,method,path) concatenation collisions; the same sequence is served by a cache-less twin; distinct = (cache hit?, uncached status, cached-entry kind, ip filters present, headers present, collision?)")
+	r.Rule("seeded HTTPServer specs (header-conditioned entries ahead of unconditional ones, method lists, IP filters at server/rule/path level, shadowing duplicates; one class of virtual-host servers whose rules each carry their own IP filter and produce 200/404/405 per host) x cache sizes {1,2,8,64} x sequences of 40 requests from mixed clients drawn from a pool of 10 (so repeats, warm-ups by other clients/headers and evictions occur) plus crafted (host,method,path) concatenation collisions; one class of rewrite-heavy servers (most header-less exact/prefix/regexp entries carry a rewriteTarget, targets inside and outside the request vocabulary); in every class a request that was served with a rewritten path is followed, at once or later in the same history, by a request of the same host/method/headers/client whose OWN path equals that rewritten path (a run must contain such follow-ups after exact, prefix and regexp rewrites whose originating route is in the cache); the same sequence is served by a cache-less twin; distinct = (cache hit?, uncached status, cached-entry kind, spec class, collision?, follow-up of a rewritten path?)")
 	r.Assume("twin with cacheSize 0 is the oracle; both twins see byte-identical requests; cache hits are observed through the ARC cache's Contains on the key the request will use")
 	nSpecs := r.N(1500, 40000)
 	sizes := []int{1, 2, 8, 64}
@@ -69,11 +95,15 @@ func TestVerif_C12_Twin(t *testing.T) {
 			continue
 		}
 		rng := r.CaseRand(i)
-		class := i % 5 // 0: plain, 1: headers, 2: ip filters, 3: both, 4: virtual hosts with their own filters
-		o := genOpts{headers: class == 1 || class == 3, ipf: class >= 2, maxRules: 3, maxPaths: 3}
+		class := i % 6 // 0: plain, 1: headers, 2: ip filters, 3: both, 4: virtual hosts with their own filters, 5: rewrite-heavy
+		o := genOpts{headers: class == 1 || class == 3, ipf: class >= 2 && class <= 4, maxRules: 3, maxPaths: 3}
+		withClients := class >= 2 && class <= 4
 		spec := genSpec(rng, o)
 		if class == 4 {
 			spec = c12VirtualHosts(rng)
+		}
+		if class == 5 {
+			c12RewriteHeavy(rng, spec)
 		}
 		if class == 1 {
 			// the shape the property names: header-conditioned entry ahead of an unconditional
@@ -101,7 +131,7 @@ func TestVerif_C12_Twin(t *testing.T) {
 		// request pool: few distinct requests so that the sequence revisits keys
 		pool := make([]gReq, 0, 12)
 		for k := 0; k < 8; k++ {
-			pool = append(pool, genReq(rng, spec, class >= 2))
+			pool = append(pool, genReq(rng, spec, withClients))
 		}
 		if class == 4 {
 			// per virtual host: a routed path, an unknown path (404) and an unlisted method (405),
@@ -127,7 +157,7 @@ func TestVerif_C12_Twin(t *testing.T) {
 			if rng.Intn(2) == 0 {
 				v.Headers = [][2]string{{"X-V", "canary"}}
 			}
-			if class >= 2 {
+			if withClients {
 				v.RemoteAddr = pick(rng, genClients) + ":99"
 			}
 			pool = append(pool, v)
@@ -136,8 +166,21 @@ func TestVerif_C12_Twin(t *testing.T) {
 		pool = append(pool, ca, cb)
 		probe := c12Probe{owner: map[string][3]string{}}
 		var trace []map[string]interface{}
+		// follow-ups: key of a request whose own path is the rewritten path of an earlier one
+		// -> that earlier request and the kind of rewrite it went through
+		type c12Origin struct {
+			req  gReq
+			kind string
+		}
+		followUp := map[string]c12Origin{}
+		requested := map[string]bool{}   // keys asked for so far in this history
+		preexisting := map[string]bool{} // keys under which an entry was found before anybody asked for them
+		var next *gReq
 		for k := 0; k < 40; k++ {
 			q := pool[rng.Intn(len(pool))]
+			if next != nil {
+				q, next = *next, nil
+			}
 			mi := m1.inst.Load().(*muxInstance)
 			key := c12Key(&q)
 			// The probe does not assume the cache's key representation: any cached key whose
@@ -174,6 +217,33 @@ func TestVerif_C12_Twin(t *testing.T) {
 			if _, ok := probe.owner[key]; !ok || !hit {
 				probe.owner[key] = [3]string{q.Host, q.Method, q.Path}
 			}
+			if hit && !requested[key] {
+				preexisting[key] = true
+			}
+			neverRequested := preexisting[key]
+			requested[key] = true
+			origin, isFollowUp := followUp[key]
+			if isFollowUp {
+				r.Count("rewrite_followups", 1)
+				if oh, ok := muxCacheProbe(m1, &origin.req); oh && ok == "route" {
+					// the route that produced the rewritten path is (still) in the cache
+					r.Count("rewrite_followup_origin_cached_"+origin.kind, 1)
+				}
+			}
+			if g0.Status == 200 && g0.Path != q.Path && g0.Path != "" && len(pool) < 28 {
+				// served with a rewritten path: a request for exactly that path joins the pool and,
+				// every other time, is the very next request
+				f := q
+				f.Path = g0.Path
+				fk := c12Key(&f)
+				if _, ok := followUp[fk]; !ok {
+					followUp[fk] = c12Origin{req: q, kind: refRoute(spec, &q, missing).Rewrite}
+					pool = append(pool, f)
+					if rng.Intn(2) == 0 {
+						next = &pool[len(pool)-1]
+					}
+				}
+			}
 			r.Eval(1)
 			if hit {
 				r.Count("cache_hits", 1)
@@ -182,7 +252,7 @@ func TestVerif_C12_Twin(t *testing.T) {
 			if collision {
 				r.Count("key_collisions_exercised", 1)
 			}
-			r.Cover(fmt.Sprintf("hit=%v/%d/%s/class%d/coll=%v", hit, g0.Status, cachedKind, class, collision))
+			r.Cover(fmt.Sprintf("hit=%v/%d/%s/class%d/coll=%v/followup=%v", hit, g0.Status, cachedKind, class, collision, isFollowUp))
 			trace = append(trace, map[string]interface{}{"req": q, "hit": hit, "nocache": g0, "cache": g1})
 			if g0.Status == g1.Status && g0.Backend == g1.Backend && g0.Path == g1.Path {
 				continue
@@ -193,6 +263,10 @@ func TestVerif_C12_Twin(t *testing.T) {
 			switch {
 			case !hit:
 				kind = "miss-path-differs"
+			case neverRequested && isFollowUp:
+				kind = "entry-found-under-key-never-requested:key-path-is-rewritten-path-of-earlier-request:rewrite=" + origin.kind
+			case neverRequested:
+				kind = "entry-found-under-key-never-requested"
 			case collision:
 				kind = "key-collision:entry-stored-by-different-host-method-path"
 			case cachedKind == "route" && g0.Status != 403 && (ref.Why == "hdr400" || (ref.Rule >= 0 && len(spec.Rules[ref.Rule].Paths[ref.PathIdx].Headers) > 0)):
@@ -203,6 +277,8 @@ func TestVerif_C12_Twin(t *testing.T) {
 				kind = "cached-route-skips-ip-filter-of-earlier-host-matching-rule"
 			case g1.Status == 403 && cachedKind == "route":
 				kind = "cached-route-403-but-uncached-serves"
+			case isFollowUp:
+				kind = "entry-differs-under-key-whose-path-is-rewritten-path-of-earlier-request:rewrite=" + origin.kind
 			}
 			tail := trace
 			if len(tail) > 12 {
@@ -224,6 +300,10 @@ func TestVerif_C12_Twin(t *testing.T) {
 	r.Require("cache_hits_class_2", 1)
 	r.Require("cache_hits_class_3", 1)
 	r.Require("cache_hits_class_4", 1)
+	r.Require("cache_hits_class_5", 1)
+	r.Require("rewrite_followup_origin_cached_exact", 1)
+	r.Require("rewrite_followup_origin_cached_prefix", 1)
+	r.Require("rewrite_followup_origin_cached_regexp", 1)
 	r.Require("key_collisions_exercised", 1)
 }
 
